@@ -214,6 +214,792 @@ batch with two of its own messages. -/
 theorem c04_counts_messages_not_children :
     proj cfg3 1 (run cfg3 emptyQ [k 0 1, k 0 2, k 1 3]) = ([[k 0 1, k 0 2, k 1 3]], []) := by decide
 
+/-! ### statements without a premise on the arrivals: every schedule, every fan-out -/
+
+/-- what the queues of an instance hold: children's messages of the queue's own type -/
+def QInv (cfg : Cfg) (q : Queues) : Prop := ∀ t, ∀ m ∈ q t, kid cfg t m = true
+
+theorem qinv_empty (cfg : Cfg) : QInv cfg emptyQ := by intro t m hm; simp [emptyQ] at hm
+
+private theorem step_kid (cfg : Cfg) (t : Nat) (q : Queues) (m : Msg) (hk : kid cfg t m = true) :
+    ((q t).length + 1 = cfg.nChildren ∧
+        aggregate cfg q m = (fun t' => if t' = t then [] else q t', some (q t ++ [m]))) ∨
+    (¬ (q t).length + 1 = cfg.nChildren ∧
+        aggregate cfg q m = (fun t' => if t' = t then q t ++ [m] else q t', none)) := by
+  have ⟨hb, hty⟩ := kid_not_bypass hk
+  by_cases hf : (q t).length + 1 = cfg.nChildren
+  · left; refine ⟨hf, ?_⟩
+    rw [agg_full cfg q m hb (by rw [hty]; exact hf), hty]
+  · right; refine ⟨hf, ?_⟩
+    rw [agg_part cfg q m hb (by rw [hty]; exact hf), hty]
+
+private theorem kid_of_not_bypass {cfg : Cfg} {m : Msg} (h : bypass cfg m = false) : kid cfg m.ty m = true := by
+  simp [kid, h]
+
+theorem qinv_step (cfg : Cfg) (q : Queues) (m : Msg) (hq : QInv cfg q) : QInv cfg (aggregate cfg q m).1 := by
+  cases hb : bypass cfg m
+  · have hk := kid_of_not_bypass hb
+    rcases step_kid cfg m.ty q m hk with ⟨_, h⟩ | ⟨_, h⟩
+    · rw [h]; intro t x hx
+      by_cases e : t = m.ty
+      · simp [e] at hx
+      · simp [e] at hx; exact hq t x hx
+    · rw [h]; intro t x hx
+      by_cases e : t = m.ty
+      · subst e; simp at hx; rcases hx with hx | hx
+        · exact hq _ x hx
+        · rw [hx]; exact hk
+      · simp [e] at hx; exact hq t x hx
+  · rw [c04_bypass cfg q m hb]; exact hq
+
+theorem qinv_run (cfg : Cfg) (q : Queues) (l : List Msg) (hq : QInv cfg q) : QInv cfg (run cfg q l).1 := by
+  induction l generalizing q with
+  | nil => exact hq
+  | cons m l ih => simp only [run]; exact ih _ (qinv_step cfg q m hq)
+
+/-- **a batch never mixes**: whatever arrives in whatever order, everything the node dispatches is either one
+message that bypasses aggregation (from the parent, or of a type not registered in slice form), or exactly
+`nChildren` collected messages that are all of one and the same aggregated type. -/
+theorem c04_batch_shape (cfg : Cfg) (q : Queues) (l : List Msg) (hq : QInv cfg q) :
+    ∀ b ∈ (run cfg q l).2,
+      (∃ m, b = [m] ∧ bypass cfg m = true) ∨
+      (∃ t, b.length = cfg.nChildren ∧ ∀ m ∈ b, kid cfg t m = true) := by
+  induction l generalizing q with
+  | nil => simp [run]
+  | cons m l ih =>
+    intro b hb
+    simp only [run, List.mem_append] at hb
+    rcases hb with hb | hb
+    · cases hbp : bypass cfg m
+      · have hk := kid_of_not_bypass hbp
+        rcases step_kid cfg m.ty q m hk with ⟨hf, h⟩ | ⟨_, h⟩
+        · rw [h] at hb; simp at hb; subst hb
+          right; refine ⟨m.ty, by simp [hf], ?_⟩
+          intro x hx; simp at hx; rcases hx with hx | hx
+          · exact hq _ x hx
+          · rw [hx]; exact hk
+        · rw [h] at hb; simp at hb
+      · rw [c04_bypass cfg q m hbp] at hb; simp at hb
+        left; exact ⟨m, hb, hbp⟩
+    · exact ih _ (qinv_step cfg q m hq) b hb
+
+/-- **nothing lost, nothing duplicated, nothing re-ordered, for every schedule**: the children's messages of
+aggregated type `t` (queued before, then arriving) are, in arrival order, exactly the concatenation of the
+batches of type `t` that were dispatched followed by what is still queued. -/
+theorem c04_conservation (cfg : Cfg) (t : Nat) (q : Queues) (l : List Msg) (hq : QInv cfg q) :
+    ((run cfg q l).2.filter (isAggBatch cfg t)).flatten ++ (run cfg q l).1 t
+      = q t ++ l.filter (kid cfg t) := by
+  induction l generalizing q with
+  | nil => simp [run]
+  | cons m l ih =>
+    have ih' := ih (aggregate cfg q m).1 (qinv_step cfg q m hq)
+    by_cases hk : kid cfg t m = true
+    · simp only [List.filter_cons, hk, if_true, run, List.filter_append, List.flatten_append,
+        List.append_assoc]
+      rw [ih']
+      rcases step_kid cfg t q m hk with ⟨_, h⟩ | ⟨_, h⟩
+      · have hb' : isAggBatch cfg t (q t ++ [m]) = true := by
+          simp only [isAggBatch, List.all_append, List.all_cons, List.all_nil, hk, Bool.and_true]
+          simp
+          exact hq t
+        rw [h]; simp [hb']
+      · rw [h]; simp
+    · have hk' : kid cfg t m = false := by simpa using hk
+      have hs := step_irrelevant cfg t q m hk'
+      simp only [List.filter_cons, hk', run, List.filter_append, List.flatten_append, List.append_assoc]
+      rw [ih', hs.1, hs.2]; simp
+
+/-- a dispatched batch that is a single message which bypassed aggregation -/
+def isBypassBatch (cfg : Cfg) (b : List Msg) : Bool :=
+  match b with
+  | [m] => bypass cfg m
+  | _ => false
+
+/-- **one by one**: the messages from the parent and of non-aggregated types are dispatched each alone, all of
+them, in arrival order — whatever is interleaved. -/
+theorem c04_bypass_conservation (cfg : Cfg) (q : Queues) (l : List Msg) (hq : QInv cfg q) :
+    ((run cfg q l).2.filter (isBypassBatch cfg)) = (l.filter (bypass cfg)).map fun m => [m] := by
+  induction l generalizing q with
+  | nil => simp [run]
+  | cons m l ih =>
+    have ih' := ih (aggregate cfg q m).1 (qinv_step cfg q m hq)
+    simp only [run, List.filter_append, ih']
+    cases hbp : bypass cfg m
+    · have hk := kid_of_not_bypass hbp
+      simp only [List.filter_cons, hbp]
+      rcases step_kid cfg m.ty q m hk with ⟨hf, h⟩ | ⟨_, h⟩
+      · rw [h]
+        have : isBypassBatch cfg (q m.ty ++ [m]) = false := by
+          cases hq' : q m.ty with
+          | nil => simp [isBypassBatch, hbp]
+          | cons a r =>
+            cases r with
+            | nil =>
+              have := hq m.ty a (by simp [hq'])
+              simp [isBypassBatch]
+            | cons b r' => simp [isBypassBatch]
+        simp [this]
+      · rw [h]; simp
+    · rw [c04_bypass cfg q m hbp]
+      simp [hbp, isBypassBatch]
+
+/-- **a complete batch is never held back**: with at least one child, fewer than `nChildren` messages of any
+type are ever waiting — when no message is in flight, what is queued is an incomplete round. -/
+theorem c04_queue_bound (cfg : Cfg) (q : Queues) (l : List Msg) (hn : 1 ≤ cfg.nChildren)
+    (hq : ∀ t, (q t).length < cfg.nChildren) :
+    ∀ t, ((run cfg q l).1 t).length < cfg.nChildren := by
+  induction l generalizing q with
+  | nil => exact hq
+  | cons m l ih =>
+    simp only [run]
+    apply ih
+    intro t
+    cases hbp : bypass cfg m
+    · have hk := kid_of_not_bypass hbp
+      rcases step_kid cfg m.ty q m hk with ⟨_, h⟩ | ⟨hf, h⟩
+      · rw [h]; by_cases e : t = m.ty
+        · simp [e]; omega
+        · simp [e]; exact hq t
+      · rw [h]; by_cases e : t = m.ty
+        · subst e; simp; have := hq m.ty; omega
+        · simp [e]; exact hq t
+    · rw [c04_bypass cfg q m hbp]; exact hq t
+
+private theorem length_flatten_const {α : Type} (n : Nat) (L : List (List α)) (h : ∀ b ∈ L, b.length = n) :
+    L.flatten.length = n * L.length := by
+  induction L with
+  | nil => simp
+  | cons b L ih =>
+    simp only [List.flatten_cons, List.length_append, List.length_cons]
+    rw [h b (by simp), ih (fun b' hb' => h b' (by simp [hb'])), Nat.mul_succ]; omega
+
+/-- **how many batches, for every schedule**: starting from a fresh instance with `n ≥ 1` children, after any
+sequence of arrivals the number of batches of type `t` is the number of children's messages of type `t`
+divided by `n`, and the remainder is what waits. -/
+theorem c04_batch_count (cfg : Cfg) (t : Nat) (l : List Msg) (hn : 1 ≤ cfg.nChildren) :
+    ((run cfg emptyQ l).2.filter (isAggBatch cfg t)).length = (l.filter (kid cfg t)).length / cfg.nChildren ∧
+    ((run cfg emptyQ l).1 t).length = (l.filter (kid cfg t)).length % cfg.nChildren := by
+  have hc := congrArg List.length (c04_conservation cfg t emptyQ l (qinv_empty cfg))
+  have hb := c04_queue_bound cfg emptyQ l hn (by intro t; simp [emptyQ]; omega) t
+  have hlen : ((run cfg emptyQ l).2.filter (isAggBatch cfg t)).flatten.length
+      = cfg.nChildren * ((run cfg emptyQ l).2.filter (isAggBatch cfg t)).length := by
+    apply length_flatten_const
+    intro b hb'
+    have hm := List.mem_filter.mp hb'
+    rcases c04_batch_shape cfg emptyQ l (qinv_empty cfg) b hm.1 with ⟨m, rfl, hbp⟩ | ⟨t', hl, _⟩
+    · have := hm.2; simp [isAggBatch, kid, hbp] at this
+    · exact hl
+  simp only [List.length_append, emptyQ, List.length_nil, Nat.zero_add] at hc
+  rw [hlen] at hc
+  generalize ((run cfg emptyQ l).2.filter (isAggBatch cfg t)).length = k at hc
+  generalize ((run cfg emptyQ l).1 t).length = r at hc hb
+  generalize (l.filter (kid cfg t)).length = N at hc
+  generalize cfg.nChildren = n at hc hb hn
+  subst hc
+  constructor
+  · rw [Nat.mul_add_div (by omega : 0 < n) k r, Nat.div_eq_of_lt hb]; omega
+  · rw [Nat.mul_add_mod, Nat.mod_eq_of_lt hb]
+
+/-- the documented boundary for a leaf: a node without children never dispatches an aggregated type's message
+that does not come from its parent (the completion test `len(msgs) == 0` cannot hold) — such messages wait
+for ever. Outside the property's premise (a leaf has no child that could send). -/
+theorem c04_leaf_never_dispatches (cfg : Cfg) (t : Nat) (q : Queues) (l : List Msg) (h0 : cfg.nChildren = 0) :
+    (run cfg q l).2.filter (isAggBatch cfg t) = [] ∧ (run cfg q l).1 t = q t ++ l.filter (kid cfg t) := by
+  induction l generalizing q with
+  | nil => simp [run]
+  | cons m l ih =>
+    have ih' := ih (aggregate cfg q m).1
+    simp only [run, List.filter_append, ih'.1, ih'.2, List.append_nil]
+    by_cases hk : kid cfg t m = true
+    · rcases step_kid cfg t q m hk with ⟨hf, _⟩ | ⟨_, h⟩
+      · omega
+      · rw [h]; simp [hk]
+    · have hk' : kid cfg t m = false := by simpa using hk
+      have hs := step_irrelevant cfg t q m hk'
+      simp [hk', hs.1, hs.2]
+
+/-! ### several instances on one server, several types, several rounds — at once -/
+
+/-- the messages handed to instance `i`, in order -/
+def evOf (i : Nat) (l : List (Nat × Msg)) : List Msg := (l.filter fun e => e.1 = i).map Prod.snd
+
+/-- the batches instance `i` dispatched, in order -/
+def outOf (i : Nat) (o : List (Nat × List Msg)) : List (List Msg) := (o.filter fun e => e.1 = i).map Prod.snd
+
+/-- **instances never mix**: in any interleaving of the traffic of any number of instances (runs of the same or
+of different protocols, over the same or different trees) on one server, what instance `i` queues and
+dispatches is exactly what it would queue and dispatch if its own messages were the only traffic. -/
+theorem c04_instances_independent (s : Sys) (i : Nat) (l : List (Nat × Msg)) :
+    (sysRun s l).1.cfg = s.cfg ∧
+    (sysRun s l).1.q i = (run (s.cfg i) (s.q i) (evOf i l)).1 ∧
+    outOf i (sysRun s l).2 = (run (s.cfg i) (s.q i) (evOf i l)).2 := by
+  induction l generalizing s with
+  | nil => simp [sysRun, evOf, outOf, run]
+  | cons e l ih =>
+    obtain ⟨j, m⟩ := e
+    have ih' := ih (sysStep s j m).1
+    have hcfg : (sysStep s j m).1.cfg = s.cfg := rfl
+    simp only [sysRun]
+    refine ⟨by rw [ih'.1, hcfg], ?_, ?_⟩
+    · rw [ih'.2.1, hcfg]
+      by_cases hj : j = i
+      · subst hj; simp [evOf, run, sysStep]
+      · have : (sysStep s j m).1.q i = s.q i := by
+          have hne : ¬ i = j := fun h => hj h.symm
+          simp [sysStep, hne]
+        rw [this]; simp [evOf, hj]
+    · simp only [outOf, List.filter_append, List.map_append]
+      have h2 := ih'.2.2
+      simp only [outOf] at h2
+      rw [h2, hcfg]
+      by_cases hj : j = i
+      · subst hj
+        have : ((sysStep s j m).2.toList.map fun b => (j, b)).filter (fun e => e.1 = j) =
+            (sysStep s j m).2.toList.map fun b => (j, b) := by
+          apply List.filter_eq_self.mpr; intro a ha; simp at ha; obtain ⟨_, _, rfl⟩ := ha; simp
+        rw [this]; simp [evOf, run, sysStep, List.map_map, Function.comp_def]
+      · have : (sysStep s j m).1.q i = s.q i := by
+          have hne : ¬ i = j := fun h => hj h.symm
+          simp [sysStep, hne]
+        rw [this]
+        have : ((sysStep s j m).2.toList.map fun b => (j, b)).filter (fun e => e.1 = i) = [] := by
+          apply List.filter_eq_nil_iff.mpr; intro a ha; simp at ha; obtain ⟨_, _, rfl⟩ := ha; simpa using hj
+        rw [this]; simp [evOf, hj]
+
+/-- **batches of different instances, types and rounds never mix, all at once**: take any schedule over any
+number of instances.  For every instance `i` and every aggregated type `t` whose children's messages arrive
+as consecutive rounds of one message per child (interleaved in any way with the other instances' traffic, the
+other types, parent messages, and the rounds of the other (instance, type) pairs), instance `i` dispatches for
+`t` exactly those rounds, one batch per round, and keeps nothing. -/
+theorem c04_sys_rounds (s : Sys) (l : List (Nat × Msg)) (i t : Nat) (rounds : List (List Msg))
+    (hq : s.q i t = []) (hn : 1 ≤ (s.cfg i).nChildren)
+    (hr : ∀ r ∈ rounds, r.length = (s.cfg i).nChildren)
+    (hl : (evOf i l).filter (kid (s.cfg i) t) = rounds.flatten) :
+    (outOf i (sysRun s l).2).filter (isAggBatch (s.cfg i) t) = rounds ∧ (sysRun s l).1.q i t = [] := by
+  have hi := c04_instances_independent s i l
+  have := c04_rounds (s.cfg i) t (s.q i) (evOf i l) rounds hq hn hr hl
+  simp only [proj, Prod.mk.injEq] at this
+  rw [hi.2.2, hi.2.1]; exact this
+
+/-- every batch any instance dispatches is homogeneous: one bypassing message, or `nChildren` (of that
+instance) children's messages of one aggregated type — whatever the interleaving with other instances -/
+theorem c04_sys_batch_shape (s : Sys) (l : List (Nat × Msg)) (hq : ∀ i, QInv (s.cfg i) (s.q i)) :
+    ∀ e ∈ (sysRun s l).2,
+      (∃ m, e.2 = [m] ∧ bypass (s.cfg e.1) m = true) ∨
+      (∃ t, e.2.length = (s.cfg e.1).nChildren ∧ ∀ m ∈ e.2, kid (s.cfg e.1) t m = true) := by
+  intro e he
+  have hi := c04_instances_independent s e.1 l
+  have : e.2 ∈ outOf e.1 (sysRun s l).2 := by
+    simp only [outOf, List.mem_map, List.mem_filter]
+    exact ⟨e, ⟨he, by simp⟩, rfl⟩
+  rw [hi.2.2] at this
+  exact c04_batch_shape (s.cfg e.1) (s.q e.1) _ (hq e.1) e.2 this
+
+private def sys2 : Sys :=
+  { cfg := fun i => if i = 0 then { isRoot := false, nChildren := 2, agg := fun t => t == 1 || t == 2 }
+                    else { isRoot := true, nChildren := 3, agg := fun t => t == 1 },
+    q := fun _ => emptyQ }
+
+/-- two instances (fan-outs 2 and 3), two aggregated types in the first one, two rounds of type 1 in the first
+instance, everything interleaved, a parent message and a plain message in between -/
+example : (sysRun sys2
+    [(0, k 0 1), (1, k 2 2), (0, ⟨2, some 1, 3⟩), (0, par 4), (1, k 0 5), (0, k 1 6), (1, oth 0 7), (0, ⟨2, some 0, 8⟩),
+     (0, k 1 9), (1, k 1 10), (0, k 0 11)]).2
+    = [(0, [par 4]), (0, [k 0 1, k 1 6]), (1, [oth 0 7]), (0, [⟨2, some 1, 3⟩, ⟨2, some 0, 8⟩]),
+       (1, [k 2 2, k 0 5, k 1 10]), (0, [k 1 9, k 0 11])] := by decide
+
+/-! ### registration: the flag is the form of what was registered (treenode.go:226-261, 294-328) -/
+
+private theorem checkStruct_ok {g : GoTy} {mt : Nat} (h : checkStruct g = .ok mt) : g = .strct 2 true mt := by
+  cases g with
+  | strct n first mt' =>
+    simp only [checkStruct] at h
+    split at h
+    · simp at h
+    · split at h
+      · simp at h
+      · rename_i h1 h2
+        simp at h; simp at h1 h2; subst h; simp [h1, h2]
+  | slice e => simp [checkStruct] at h
+  | err => simp [checkStruct] at h
+  | other => simp [checkStruct] at h
+
+/-- **what a successful registration does, and only that**: it concerns one message type `mt`, it stores the
+handler or the channel for `mt`, and it sets the aggregation flag of `mt` to "the argument has slice form" —
+nothing else changes. (In particular the flag of `mt` is overwritten whatever was registered for `mt` before.) -/
+theorem c04_reg_effect {r r' : Reg} {c : RegCall} (h : regCall r c = .ok r') :
+    ∃ mt f, formOf c = some (mt, f) ∧
+      r'.flags = (fun t => if t = mt then f == .slice else r.flags t) ∧
+      ((∃ cap, r'.channels = (fun t => if t = mt then some (f, cap) else r.channels t) ∧ r'.handlers = r.handlers) ∨
+       (r'.handlers = (fun t => if t = mt then some f else r.handlers t) ∧ r'.channels = r.channels)) := by
+  cases c with
+  | handler a =>
+    cases a with
+    | fn inp outs =>
+      simp only [regCall, registerHandler] at h
+      split at h
+      · simp at h
+      · split at h
+        · simp at h
+        · split at h
+          · simp at h
+          · rename_i mt hc
+            have hs := checkStruct_ok hc
+            simp at h; subst h
+            exact ⟨mt, (splitForm inp).1, by simp [formOf, hs], rfl, Or.inr ⟨rfl, rfl⟩⟩
+    | chanVal e c n => simp [regCall, registerHandler] at h
+    | chanPtr e => simp [regCall, registerHandler] at h
+    | other => simp [regCall, registerHandler] at h
+  | channel a n =>
+    have key : ∀ e cap, registerChanValue r e cap = .ok r' →
+        ∃ mt, (splitForm e).2 = .strct 2 true mt ∧
+          r'.flags = (fun t => if t = mt then (splitForm e).1 == .slice else r.flags t) ∧
+          r'.channels = (fun t => if t = mt then some ((splitForm e).1, cap) else r.channels t) ∧
+          r'.handlers = r.handlers := by
+      intro e cap h
+      simp only [registerChanValue] at h
+      split at h
+      · simp at h
+      · rename_i mt hc
+        simp at h; subst h
+        exact ⟨mt, checkStruct_ok hc, rfl, rfl, rfl⟩
+    cases a with
+    | fn inp outs => simp [regCall, registerChannelLength] at h
+    | chanVal e c isNil =>
+      simp only [regCall, registerChannelLength] at h
+      split at h
+      · simp at h
+      · obtain ⟨mt, hs, h1, h2, h3⟩ := key e c h
+        exact ⟨mt, (splitForm e).1, by simp [formOf, hs], h1, Or.inl ⟨c, h2, h3⟩⟩
+    | chanPtr e =>
+      simp only [regCall, registerChannelLength] at h
+      obtain ⟨mt, hs, h1, h2, h3⟩ := key e n h
+      exact ⟨mt, (splitForm e).1, by simp [formOf, hs], h1, Or.inl ⟨n, h2, h3⟩⟩
+    | other => simp [regCall, registerChannelLength] at h
+
+/-- **a refused registration changes nothing** (all checks precede the stores) — by construction of `regCall`,
+stated for the variadic calls: what `RegisterHandlers`/`RegisterChannels` registered before the first refused
+argument stays registered, nothing after it is looked at. -/
+theorem c04_reg_many_prefix (r : Reg) (pre post : List RegCall) (c : RegCall) (e : RegErr)
+    (hpre : (regMany r pre).2 = true) (hc : regCall (regMany r pre).1 c = .error e) :
+    regMany r (pre ++ c :: post) = ((regMany r pre).1, false) := by
+  induction pre generalizing r with
+  | nil => simp [regMany] at hc ⊢; simp [hc]
+  | cons a pre ih =>
+    simp only [List.cons_append, regMany] at hpre hc ⊢
+    split
+    · rename_i e' he; simp [he] at hpre
+    · rename_i r' hr; simp only [hr] at hpre hc; exact ih r' hpre hc
+
+/-- handlers that are dispatch targets always agree with the flag -/
+def HInv (r : Reg) : Prop := ∀ t f, r.channels t = none → r.handlers t = some f → r.flags t = (f == .slice)
+
+private theorem hinv_call {r r' : Reg} {c : RegCall} (hr : HInv r) (h : regCall r c = .ok r') : HInv r' := by
+  obtain ⟨mt, f, _, hf, hcase⟩ := c04_reg_effect h
+  intro t f' hc hh
+  rcases hcase with ⟨cap, hch, hha⟩ | ⟨hha, hch⟩
+  · rw [hch] at hc; rw [hha] at hh; rw [hf]
+    by_cases e : t = mt
+    · simp [e] at hc
+    · simp [e] at hc ⊢; exact hr t f' hc hh
+  · rw [hch] at hc; rw [hha] at hh; rw [hf]
+    by_cases e : t = mt
+    · simp [e] at hh ⊢; rw [hh]
+    · simp [e] at hh ⊢; exact hr t f' hc hh
+
+private theorem hinv_many {r : Reg} (hr : HInv r) (cs : List RegCall) : HInv (regMany r cs).1 := by
+  induction cs generalizing r with
+  | nil => exact hr
+  | cons c cs ih =>
+    simp only [regMany]
+    split
+    · exact hr
+    · rename_i r' h; exact ih (hinv_call hr h)
+
+/-- **whatever a constructor registers, in whatever order, well-formed or not: a handler that is the dispatch
+target of its type takes a slice exactly when the type's flag says "aggregated"** — the reflection calls of
+`dispatchHandler` can never meet a form they do not expect. -/
+theorem c04_reg_handler_target_consistent (gs : List (List RegCall)) : HInv (regScript Reg.empty gs).1 := by
+  have : ∀ r, HInv r → HInv (regScript r gs).1 := by
+    induction gs with
+    | nil => intro r hr; exact hr
+    | cons g gs ih => intro r hr; simp only [regScript]; exact ih _ (hinv_many hr g)
+  exact this _ (by intro t f _ h; simp [Reg.empty] at h)
+
+/-- every registered thing of type `t` has form `F t`, and the flag of a registered type says so -/
+def FInv (F : Nat → Form) (r : Reg) : Prop :=
+  ∀ t, (∀ f, r.handlers t = some f → f = F t) ∧ (∀ f c, r.channels t = some (f, c) → f = F t) ∧
+       ((r.handlers t ≠ none ∨ r.channels t ≠ none) → r.flags t = (F t == .slice))
+
+private theorem finv_call {F : Nat → Form} {r r' : Reg} {c : RegCall} (hr : FInv F r)
+    (hF : ∀ t f, formOf c = some (t, f) → f = F t) (h : regCall r c = .ok r') : FInv F r' := by
+  obtain ⟨mt, f, hfo, hf, hcase⟩ := c04_reg_effect h
+  have hfF := hF mt f hfo
+  intro t
+  rcases hcase with ⟨cap, hch, hha⟩ | ⟨hha, hch⟩
+  · rw [hch, hha, hf]
+    by_cases e : t = mt
+    · subst e
+      refine ⟨(hr t).1, ?_, ?_⟩
+      · intro f' c' h1; simp at h1; rw [← h1.1]; exact hfF
+      · intro _; simp [hfF]
+    · simp only [e, if_false]; exact hr t
+  · rw [hch, hha, hf]
+    by_cases e : t = mt
+    · subst e
+      refine ⟨?_, (hr t).2.1, ?_⟩
+      · intro f' h1; simp at h1; rw [← h1]; exact hfF
+      · intro _; simp [hfF]
+    · simp only [e, if_false]; exact hr t
+
+private theorem finv_many {F : Nat → Form} {r : Reg} (hr : FInv F r) (cs : List RegCall)
+    (hF : ∀ c ∈ cs, ∀ t f, formOf c = some (t, f) → f = F t) : FInv F (regMany r cs).1 := by
+  induction cs generalizing r with
+  | nil => exact hr
+  | cons c cs ih =>
+    simp only [regMany]
+    split
+    · exact hr
+    · rename_i r' h
+      exact ih (finv_call hr (hF c (by simp)) h) (fun c' hc' => hF c' (by simp [hc']))
+
+/-- **the flag is derived from the registered Go type**: if a constructor registers every message type in one
+form only (`F t`: slice or plain — as every protocol does that registers a type once), then after the whole
+script, for every type, the flag `aggregate` consults equals "the handler / channel that will receive the type
+takes a slice". -/
+theorem c04_reg_consistent (F : Nat → Form) (gs : List (List RegCall))
+    (hF : ∀ g ∈ gs, ∀ c ∈ g, ∀ t f, formOf c = some (t, f) → f = F t) :
+    (regScript Reg.empty gs).1.consistent ∧ FInv F (regScript Reg.empty gs).1 := by
+  have : ∀ r, FInv F r → (∀ g ∈ gs, ∀ c ∈ g, ∀ t f, formOf c = some (t, f) → f = F t) → FInv F (regScript r gs).1 := by
+    induction gs with
+    | nil => intro r hr _; exact hr
+    | cons g gs ih =>
+      intro r hr hF
+      simp only [regScript]
+      exact ih (fun g' hg' => hF g' (by simp [hg'])) _ (finv_many hr g (hF g (by simp)))
+        (fun g' hg' => hF g' (by simp [hg']))
+  have hfin := this Reg.empty (by intro t; simp [Reg.empty]) hF
+  refine ⟨?_, hfin⟩
+  intro t
+  have ht := hfin t
+  unfold Reg.target
+  cases hc : (regScript Reg.empty gs).1.channels t with
+  | some fc =>
+    obtain ⟨f, c⟩ := fc
+    simp only
+    rw [ht.2.2 (Or.inr (by simp [hc])), ht.2.1 f c hc]
+  | none =>
+    cases hh : (regScript Reg.empty gs).1.handlers t with
+    | some f => simp only; rw [ht.2.2 (Or.inl (by simp [hh])), ht.1 f hh]
+    | none => simp
+
+/-- the boundary: a message type registered as a slice channel and later as a plain handler keeps the channel
+as its target but carries the handler's flag — flag and target disagree (the code then recovers from a
+reflection panic in `dispatchChannel` and delivers nothing, see `c04_dispatch_mismatch_dropped`) -/
+theorem c04_reg_mixed_forms_inconsistent :
+    ¬ (regScript Reg.empty [[.channel (.chanPtr (.slice (.strct 2 true 1))) 10],
+                            [.handler (.fn (.strct 2 true 1) [.err])]]).1.consistent := by
+  intro h
+  have := h 1
+  simp [regScript, regMany, regCall, registerChannelLength, registerChanValue, registerHandler, splitForm,
+    checkStruct, Reg.target, Reg.empty] at this
+
+/-- the two accepted argument types for message type `mt` -/
+def formTy (f : Form) (mt : Nat) : GoTy :=
+  match f with
+  | .plain => .strct 2 true mt
+  | .slice => .slice (.strct 2 true mt)
+
+/-- **registration accepts exactly the documented shapes**: a handler is accepted iff it is a function with the
+single result `error` whose parameter is `struct{*TreeNode; M}` or a slice of it. -/
+theorem c04_reg_handler_accepts_iff (r : Reg) (a : Arg) :
+    (∃ r', registerHandler r a = .ok r') ↔ ∃ f mt, a = .fn (formTy f mt) [.err] := by
+  constructor
+  · rintro ⟨r', h⟩
+    cases a with
+    | fn inp outs =>
+      simp only [registerHandler] at h
+      split at h
+      · simp at h
+      · split at h
+        · simp at h
+        · rename_i h1 h2
+          split at h
+          · simp at h
+          · rename_i mt hc
+            have hs := checkStruct_ok hc
+            have ho : outs = [.err] := by simpa using h2
+            cases inp with
+            | slice e => simp [splitForm] at hs; exact ⟨Form.slice, mt, by simp [hs, ho, formTy]⟩
+            | strct n fi m => simp [splitForm] at hs; exact ⟨Form.plain, mt, by simp [hs, ho, formTy]⟩
+            | err => simp [splitForm] at hs
+            | other => simp [splitForm] at hs
+    | chanVal e c n => simp [registerHandler] at h
+    | chanPtr e => simp [registerHandler] at h
+    | other => simp [registerHandler] at h
+  · rintro ⟨f, mt, rfl⟩
+    cases f <;> simp [registerHandler, splitForm, checkStruct, formTy]
+
+/-- a channel is accepted iff it is a non-nil channel (or the address of a channel variable) whose elements are
+`struct{*TreeNode; M}` or slices of it -/
+theorem c04_reg_channel_accepts_iff (r : Reg) (a : Arg) (n : Nat) :
+    (∃ r', registerChannelLength r a n = .ok r') ↔
+      ∃ f mt, a = .chanPtr (formTy f mt) ∨ ∃ cap, a = .chanVal (formTy f mt) cap false := by
+  have key : ∀ e cap, (∃ r', registerChanValue r e cap = .ok r') ↔ ∃ f mt, e = formTy f mt := by
+    intro e cap
+    constructor
+    · rintro ⟨r', h⟩
+      simp only [registerChanValue] at h
+      split at h
+      · simp at h
+      · rename_i mt hc
+        have hs := checkStruct_ok hc
+        cases e with
+        | slice e => simp [splitForm] at hs; exact ⟨Form.slice, mt, by simp [hs, formTy]⟩
+        | strct n fi m => simp [splitForm] at hs; exact ⟨Form.plain, mt, by simp [hs, formTy]⟩
+        | err => simp [splitForm] at hs
+        | other => simp [splitForm] at hs
+    · rintro ⟨f, mt, rfl⟩
+      cases f <;> simp [registerChanValue, splitForm, checkStruct, formTy]
+  cases a with
+  | fn inp outs => simp [registerChannelLength]
+  | other => simp [registerChannelLength]
+  | chanPtr e =>
+    simp only [registerChannelLength, key]
+    constructor
+    · rintro ⟨f, mt, rfl⟩; exact ⟨f, mt, Or.inl rfl⟩
+    · rintro ⟨f, mt, h | ⟨cap, h⟩⟩
+      · simp at h; exact ⟨f, mt, h⟩
+      · simp at h
+  | chanVal e c isNil =>
+    cases isNil
+    · have hu : registerChannelLength r (.chanVal e c false) n = registerChanValue r e c := by
+        simp [registerChannelLength]
+      rw [hu, key]
+      constructor
+      · rintro ⟨f, mt, rfl⟩; exact ⟨f, mt, Or.inr ⟨c, rfl⟩⟩
+      · rintro ⟨f, mt, h | ⟨cap, h⟩⟩
+        · simp at h
+        · simp at h; exact ⟨f, mt, h.1⟩
+    · simp [registerChannelLength]
+
+/-! ### dispatch: what the handler or channel receives (treenode.go:387-424, 447-496, 577-586) -/
+
+private theorem target_handler {r : Reg} {t : Nat} {f : Form} (h : r.target t = .handler f) :
+    r.channels t = none ∧ r.handlers t = some f := by
+  unfold Reg.target at h
+  cases hc : r.channels t with
+  | some fc => simp [hc] at h
+  | none =>
+    cases hh : r.handlers t with
+    | some f' => simp [hc, hh] at h; simp [h]
+    | none => simp [hc, hh] at h
+
+/-- **registration can never make the reader goroutine crash in `dispatchHandler`**: with the invariant every
+registration script establishes, no batch meets a handler of the wrong form. -/
+theorem c04_no_crash (s : IState) (mt : Nat) (b : List Msg) (h : HInv s.reg) : (dispatch s mt b).2 ≠ .crash := by
+  unfold dispatch
+  cases ht : s.reg.target mt with
+  | none => simp
+  | chan f cap =>
+    simp only
+    cases s.reg.flags mt <;> cases f <;> simp <;> split <;> simp
+  | handler f =>
+    have ⟨h1, h2⟩ := target_handler ht
+    have := h mt f h1 h2
+    simp only [this]
+    cases f <;> simp
+
+/-- a handler registered in slice form is called once, with the whole batch -/
+theorem c04_dispatch_handler_slice (s : IState) (mt : Nat) (b : List Msg) (hi : HInv s.reg)
+    (ht : s.reg.target mt = .handler .slice) : dispatch s mt b = (s, .calls [b]) := by
+  have ⟨h1, h2⟩ := target_handler ht
+  have := hi mt .slice h1 h2
+  simp [dispatch, ht, this]
+
+/-- a handler registered in plain form is called once per message -/
+theorem c04_dispatch_handler_plain (s : IState) (mt : Nat) (b : List Msg) (hi : HInv s.reg)
+    (ht : s.reg.target mt = .handler .plain) : dispatch s mt b = (s, .calls (b.map fun m => [m])) := by
+  have ⟨h1, h2⟩ := target_handler ht
+  have := hi mt .plain h1 h2
+  simp [dispatch, ht, this]
+
+/-- a channel registered in slice form receives the whole batch as one item, behind what it already holds -/
+theorem c04_dispatch_chan_slice (s : IState) (mt cap : Nat) (b : List Msg)
+    (ht : s.reg.target mt = .chan .slice cap) (hf : s.reg.flags mt = true) (hroom : (s.chans mt).length < cap) :
+    dispatch s mt b = ({ s with chans := fun t => if t = mt then s.chans mt ++ [b] else s.chans t }, .sent [b]) := by
+  simp [dispatch, ht, hf, hroom]
+
+private theorem sendPlain_room (cap : Nat) (buf : List (List Msg)) (b : List Msg)
+    (h : buf.length + b.length ≤ cap) :
+    sendPlain cap buf b = (buf ++ b.map (fun m => [m]), b.map fun m => [m]) := by
+  induction b generalizing buf with
+  | nil => simp [sendPlain]
+  | cons m ms ih =>
+    simp only [List.length_cons] at h
+    have : buf.length < cap := by omega
+    simp only [sendPlain, this, if_true]
+    rw [ih (buf ++ [[m]]) (by simp; omega)]
+    simp
+
+/-- a channel registered in plain form receives the messages one by one, as long as it has room -/
+theorem c04_dispatch_chan_plain (s : IState) (mt cap : Nat) (b : List Msg) (hb : b ≠ [])
+    (ht : s.reg.target mt = .chan .plain cap) (hf : s.reg.flags mt = false)
+    (hroom : (s.chans mt).length + b.length ≤ cap) :
+    dispatch s mt b = ({ s with chans := fun t => if t = mt then s.chans mt ++ b.map (fun m => [m]) else s.chans t },
+                       .sent (b.map fun m => [m])) := by
+  simp [dispatch, ht, hf, sendPlain_room cap (s.chans mt) b hroom, hb]
+
+/-- the documented boundary of plain channels: a message that finds the channel full (`out.Len() == out.Cap()`,
+always the case for an unbuffered channel) is not delivered — `dispatchChannel` returns "channel too small" -/
+theorem c04_plain_channel_full_drops (s : IState) (mt cap : Nat) (m : Msg)
+    (ht : s.reg.target mt = .chan .plain cap) (hf : s.reg.flags mt = false) (hfull : cap ≤ (s.chans mt).length) :
+    (dispatch s mt [m]).2 = .dropped ∧ (dispatch s mt [m]).1.chans = s.chans := by
+  have : ¬ (s.chans mt).length < cap := by omega
+  simp only [dispatch, ht, hf, sendPlain, this]
+  constructor
+  · simp
+  · funext t; by_cases e : t = mt <;> simp [e]
+
+/-- a type nobody registered, or a channel whose form contradicts the flag: nothing is delivered, nothing changes -/
+theorem c04_dispatch_mismatch_dropped (s : IState) (mt : Nat) (b : List Msg)
+    (h : s.reg.target mt = .none ∨ ∃ f cap, s.reg.target mt = .chan f cap ∧ s.reg.flags mt ≠ (f == .slice)) :
+    dispatch s mt b = (s, .dropped) := by
+  rcases h with h | ⟨f, cap, h, hne⟩
+  · simp [dispatch, h]
+  · cases f <;> cases hf : s.reg.flags mt <;> simp [hf] at hne <;> simp [dispatch, h, hf]
+
+/-! ### from the registered Go type to the batches the handler sees -/
+
+private theorem dispatch_frame (s : IState) (mt : Nat) (b : List Msg) :
+    (dispatch s mt b).1.q = s.q ∧ (dispatch s mt b).1.reg = s.reg ∧
+    (dispatch s mt b).1.isRoot = s.isRoot ∧ (dispatch s mt b).1.nChildren = s.nChildren := by
+  unfold dispatch
+  cases s.reg.target mt with
+  | none => simp
+  | handler f => simp only; cases s.reg.flags mt <;> cases f <;> simp
+  | chan f cap =>
+    simp only
+    cases s.reg.flags mt <;> cases f <;> simp
+    split <;> simp
+
+private theorem istep_frame (s : IState) (m : Msg) :
+    (istep s m).1.q = (aggregate s.cfg s.q m).1 ∧ (istep s m).1.reg = s.reg ∧
+    (istep s m).1.isRoot = s.isRoot ∧ (istep s m).1.nChildren = s.nChildren := by
+  unfold istep
+  simp only
+  split
+  · simp
+  · rename_i b _
+    have := dispatch_frame { s with q := (aggregate s.cfg s.q m).1 } m.ty b
+    simp only at this ⊢
+    exact this
+
+private theorem istep_cfg (s : IState) (m : Msg) : (istep s m).1.cfg = s.cfg := by
+  have := istep_frame s m
+  simp [IState.cfg, this.2.1, this.2.2.1, this.2.2.2]
+
+/-- the registration-and-dispatch layer sits on top of `aggregate` without touching it: queues and
+configuration evolve exactly as in `run` -/
+theorem c04_irun_refines (s : IState) (l : List Msg) :
+    (irun s l).1.q = (run s.cfg s.q l).1 ∧ (irun s l).1.cfg = s.cfg ∧ (irun s l).1.reg = s.reg := by
+  induction l generalizing s with
+  | nil => simp [irun, run]
+  | cons m l ih =>
+    have hf := istep_frame s m
+    have hc := istep_cfg s m
+    have := ih (istep s m).1
+    simp only [irun, run]
+    rw [this.1, this.2.1, this.2.2, hc, hf.1, hf.2.1]
+    exact ⟨rfl, rfl, rfl⟩
+
+/-- **end to end, from the Go type to the batches**: let a constructor run *any* registration script, and let
+message type `t` end up with a slice-form handler as its dispatch target.  Then for every schedule the calls of
+that handler with collected batches of `t` are exactly the batches `aggregate` releases for `t`. -/
+theorem c04_handler_calls (s : IState) (l : List Msg) (t : Nat) (hq : QInv s.cfg s.q) (hi : HInv s.reg)
+    (ht : s.reg.target t = .handler .slice) :
+    (callsOf (irun s l).2).filter (isAggBatch s.cfg t) = (run s.cfg s.q l).2.filter (isAggBatch s.cfg t) := by
+  induction l generalizing s with
+  | nil => simp [irun, run, callsOf]
+  | cons m l ih =>
+    have hf := istep_frame s m
+    have hc := istep_cfg s m
+    have ih' := ih (istep s m).1 (by rw [hc, hf.1]; exact qinv_step s.cfg s.q m hq) (by rw [hf.2.1]; exact hi)
+      (by rw [hf.2.1]; exact ht)
+    rw [hc, hf.1] at ih'
+    simp only [irun, run, List.filter_append]
+    have hco : ∀ (a b : List Outcome), callsOf (a ++ b) = callsOf a ++ callsOf b := by
+      intro a b; induction a with
+      | nil => rfl
+      | cons o a iha => cases o <;> simp [callsOf, iha]
+    rw [hco, List.filter_append, ih']
+    congr 1
+    -- the step itself
+    unfold istep
+    cases hb : bypass s.cfg m
+    · have hk := kid_of_not_bypass hb
+      rcases step_kid s.cfg m.ty s.q m hk with ⟨_, h⟩ | ⟨_, h⟩
+      · rw [h]
+        simp only [Option.toList]
+        by_cases e : m.ty = t
+        · have ht' : s.reg.target m.ty = .handler .slice := by rw [e]; exact ht
+          rw [c04_dispatch_handler_slice _ _ _ (by exact hi) (by exact ht')]
+          simp [callsOf]
+        · have hna : isAggBatch s.cfg t (s.q m.ty ++ [m]) = false := other_not_agg _ e
+          have hfl : s.reg.flags m.ty = true := by
+            have : s.cfg.agg m.ty = true := by
+              simp [bypass] at hb; exact hb.2
+            exact this
+          -- whatever the target of m.ty is, no call is an aggregated batch of t
+          simp only [hna, List.filter_cons, List.filter_nil]
+          unfold dispatch
+          cases s.reg.target m.ty with
+          | none => simp [callsOf]
+          | handler f => simp only [hfl]; cases f <;> simp [callsOf, hna]
+          | chan f cap =>
+            simp only [hfl]
+            cases f <;> simp [callsOf]
+            split <;> simp [callsOf]
+      · rw [h]; simp [callsOf]
+    · rw [c04_bypass s.cfg s.q m hb]
+      have hna : isAggBatch s.cfg t [m] = false := singleton_not_agg hb
+      simp only [Option.toList, hna, List.filter_cons, List.filter_nil]
+      unfold dispatch
+      cases s.reg.target m.ty with
+      | none => simp [callsOf]
+      | handler f =>
+        simp only
+        cases s.reg.flags m.ty <;> cases f <;> simp [callsOf, hna]
+      | chan f cap =>
+        simp only
+        cases s.reg.flags m.ty <;> cases f <;> simp [callsOf]
+        · split <;> simp [callsOf]
+        · split <;> simp [callsOf]
+
+/-- **the property for a handler registered in slice form**: whatever else the constructor registers, if the
+children's messages of type `t` arrive as consecutive rounds of one per child (interleaved with anything), the
+handler is called exactly once per round, with exactly that round. -/
+theorem c04_registered_rounds (gs : List (List RegCall)) (isRoot : Bool) (n t : Nat) (l : List Msg)
+    (rounds : List (List Msg))
+    (ht : (regScript Reg.empty gs).1.target t = .handler .slice)
+    (hn : 1 ≤ n) (hr : ∀ r ∈ rounds, r.length = n)
+    (hl : l.filter (kid { isRoot := isRoot, nChildren := n, agg := (regScript Reg.empty gs).1.flags } t) = rounds.flatten) :
+    (callsOf (irun { isRoot := isRoot, nChildren := n, reg := (regScript Reg.empty gs).1 } l).2).filter
+      (isAggBatch { isRoot := isRoot, nChildren := n, agg := (regScript Reg.empty gs).1.flags } t) = rounds := by
+  have hi := c04_reg_handler_target_consistent gs
+  have h1 := c04_handler_calls { isRoot := isRoot, nChildren := n, reg := (regScript Reg.empty gs).1 } l t
+    (qinv_empty _) hi ht
+  have h2 := c04_rounds { isRoot := isRoot, nChildren := n, agg := (regScript Reg.empty gs).1.flags } t emptyQ l rounds
+    rfl hn hr hl
+  simp only [proj, Prod.mk.injEq] at h2
+  exact h1.trans h2.1
+
+/-- non-vacuity: the standard recording protocol's registrations (M1 slice handler, M3 plain handler, M2 slice
+channel, M4 plain channel) meet the hypotheses for type 1 -/
+example : (regScript Reg.empty Drv.stdScript).1.target 1 = .handler .slice := by decide
+example : (regScript Reg.empty Drv.stdScript).1.target 2 = .chan .slice 1000 := by decide
+example : (regScript Reg.empty Drv.stdScript).2 = [true, true] := by decide
+
 /-! ### the code regions the model stands for
 Regenerated from /repo's source on every run (`harness/cmd/astfacts` → `OnetVerif/Shapes.lean`): the
 calls that matter for synchronisation and data flow, the lock regions and (for decision logic) the
